@@ -64,7 +64,7 @@ THEOREMS = [
 # 0 = the repaired FindStop of proposed_fixes/C14-F7.patch.  ONE EDIT when the fix is applied to /repo: set to 0
 # (and mark F7 "fixed" in KNOWN_FINDINGS.jsonl).  The environment override exists only to try the patch in a
 # scratch worktree: VERIF_REPO=/tmp/wt VERIF_C14_PINNED=0 ./check C14 quick
-PINNED_FINDSTOP = int(os.environ.get("VERIF_C14_PINNED", "1"))
+PINNED_FINDSTOP = int(os.environ.get("VERIF_C14_PINNED", "0"))  # F7 fixed in /repo (6e9857ebf)
 
 OV_COMMON = {
     "runner/common/zz_verif_c14_test.go": "runner_common/zz_verif_c14_test.go",
